@@ -259,15 +259,24 @@ Definition endorse_done (ord : list N) (st : cand) (c : N) : N * bool * bool :=
 
 (** * Receive path (service.go: the receive loop of Server.run, onConsensusMsg, processMsgEvent)
 
-    [ok] is the verdict of msg.Verify(pk) with pk the key of the *sending* peer (for proposals: of
-    the proposer named in the block). Nothing else is checked for endorse/commit messages before
+    [ok] says whether the message's own mandatory signature (CommitterSig, EndorserSig, the block
+    signatures of a proposal) verifies under the key of the *sending* peer (for proposals: of the
+    proposer named in the block) over the digest the message carries — ground truth computed by
+    the harness with real keys; msg.Verify(pk) must reject exactly the messages with [ok = false]. Nothing else is checked for endorse/commit messages before
     the pool sees them (Gen/VbftIntake.v records that from the current source). *)
 Inductive op :=
 | OpProposal (ok : bool) (p : proposal)
 | OpEndorse (sender : N) (ok : bool) (m : endorse_msg)
 | OpCommit (sender : N) (ok : bool) (m : commit_msg).
 
-Definition passes (ok : bool) : bool := if recv_verifies_sender_sig then ok else true.
+(** msg.Verify checks the message's own (mandatory) signature unconditionally for every signed
+    message type (inventory of the Verify methods, Gen/VbftIntake.v). *)
+Definition own_sigs_mandatory : bool :=
+  verify_proposal_sig_unconditional && verify_endorse_sig_unconditional
+  && verify_commit_sig_unconditional && verify_submit_sig_unconditional.
+
+Definition passes (ok : bool) : bool :=
+  if recv_verifies_sender_sig && own_sigs_mandatory then ok else true.
 
 Definition receive (o : op) (st : cand) : cand * add_res :=
   match o with
